@@ -393,6 +393,22 @@ func fillData[T Elem](v *Vec[T], g geom, gen *Gen) {
 	}
 }
 
+// overrideData stores explicitly given lanes (if there are exactly as many as
+// addressed lanes) in the addressed elements of v.
+func overrideData[T Elem](v *Vec[T], g geom, lanes []vk.F) {
+	k := KindOf[T]()
+	if len(lanes) == 0 || len(lanes) != g.N*k.Lanes {
+		return
+	}
+	for i := 0; i < g.N; i++ {
+		re, im := float64(lanes[i*k.Lanes]), 0.0
+		if k.Cplx {
+			im = float64(lanes[i*k.Lanes+1])
+		}
+		setElem(k, v.S, g.idx(i), re, im)
+	}
+}
+
 // gather returns the lanes of the addressed elements, in kernel order.
 func gather[T Elem](s []T, g geom) []float64 {
 	k := KindOf[T]()
